@@ -81,6 +81,9 @@ def main():
         d = C.Definition(names('o', 6), names('p', 6), [tuple((i + j) % 2 == 0 for j in range(6)) for i in range(6)])
         obs('err.take', lambda: d.take(['q1', 'oalpha', 'q2', 'q3', 'q1'], ['r1', 'r2', 'palpha', 'r3']))
         e = C.Definition(names('o', 6), names('p', 6), [tuple((i * j) % 3 == 0 for j in range(6)) for i in range(6)])
+        obs('take.reorder.props', lambda: repr(d.take(properties=names('p', 6)[::-1][:4], reorder=True)))
+        obs('take.reorder.objs', lambda: repr(d.take(objects=names('o', 6)[::2], reorder=True)))
+        obs('take.noreorder', lambda: repr(d.take(names('o', 6)[::-1], names('p', 6)[1:4])))
         obs('err.union', lambda: d.union(e))
         obs('err.inters', lambda: d & e)
         obs('err.remove', lambda: d.remove_object('nope'))
